@@ -51,6 +51,8 @@ func (cs *StatusList2021) Verify(credentialToVerify vc.VerifiableCredential) err
 	// only check credentialStatus of type StatusList2021Entry with statusPurpose == revocation other types/purposes are ignored
 	// returns errors if processing fails -> TODO: hard/soft fail option?
 	// returns types.ErrRevoked if correct type, purpose, and listed.
+	// All entries are checked: an entry that can't be checked must not hide a later entry that lists the credential as revoked.
+	var checkErr error
 	for _, status := range statuses {
 		if status.Type != StatusList2021EntryType {
 			// ignore other credentialStatus.type
@@ -76,30 +78,36 @@ func (cs *StatusList2021) Verify(credentialToVerify vc.VerifiableCredential) err
 			continue
 		}
 
-		// get StatusList2021Credential with same purpose
-		sList, err := cs.statusList(slEntry.StatusListCredential)
-		if err != nil {
-			return fmt.Errorf("status list: %w", err)
-		}
-		if sList.StatusPurpose != slEntry.StatusPurpose {
-			return fmt.Errorf("StatusList2021Credential.credentialSubject.statusPuspose='%s' does not match vc.credentialStatus.statusPurpose='%s'", sList.StatusPurpose, slEntry.StatusPurpose)
-		}
-
-		// check if listed
-		index, err := strconv.Atoi(slEntry.StatusListIndex)
-		if err != nil {
-			// can't happen, checked during validation of credentialToVerify
-			return err
-		}
-		revoked, err := sList.Bitstring.bit(index)
-		if err != nil {
-			return err
-		}
+		revoked, err := cs.isListed(slEntry)
 		if revoked {
 			return errRevoked
 		}
+		if err != nil && checkErr == nil {
+			// remember the first failure, but continue: one of the other entries could list the credential as revoked
+			checkErr = err
+		}
 	}
-	return nil
+	return checkErr
+}
+
+// isListed returns true if the bit of the given StatusList2021Entry is set in the StatusList2021Credential it refers to.
+func (cs *StatusList2021) isListed(slEntry StatusList2021Entry) (bool, error) {
+	// get StatusList2021Credential with same purpose
+	sList, err := cs.statusList(slEntry.StatusListCredential)
+	if err != nil {
+		return false, fmt.Errorf("status list: %w", err)
+	}
+	if sList.StatusPurpose != slEntry.StatusPurpose {
+		return false, fmt.Errorf("StatusList2021Credential.credentialSubject.statusPuspose='%s' does not match vc.credentialStatus.statusPurpose='%s'", sList.StatusPurpose, slEntry.StatusPurpose)
+	}
+
+	// check if listed
+	index, err := strconv.Atoi(slEntry.StatusListIndex)
+	if err != nil {
+		// can't happen, checked during validation of credentialToVerify
+		return false, err
+	}
+	return sList.Bitstring.bit(index)
 }
 
 func (cs *StatusList2021) statusList(statusListCredential string) (*credentialRecord, error) {
